@@ -94,6 +94,11 @@ def _mk_children(kinds, spans, off):
 
 def base_specs(tier):
     """the complete list of base collection specs of the tier (deterministic order)"""
+    yield from _base_specs_small(tier)
+    yield from many_specs(tier)
+
+
+def _base_specs_small(tier):
     t = TIERS[tier]
     N = t["N"]
     arrs = W.arrangements(N)
@@ -163,6 +168,23 @@ def base_specs(tier):
                     children = _mk_children(kinds, spans, off)
                     for pk, win in (("chrom", None), ("chunk", (off - 3, off + N + 3))):
                         yield dict(fam="big", off=off, N=N, L=BIG_L, parent=pk, win=win, children=children, d2=(c == N // 2 and ki == 0), arr=name, kinds=list(kinds))
+
+
+MANY_K = {"quick": (9, 24), "thorough": (9, 16, 24, 40)}
+
+
+def many_specs(tier):
+    """collections with MANY members (a threshold-style short-cut over the sorted children needs more than three):
+    k members of cycling kinds, each 2 bp, in the span arrangements disjoint / touching / staggered-overlapping; queries
+    and identifier requests come from reduced, completely enumerated menus (pos_menu / id_ops with many=True)"""
+    kinds = ("Gc", "F1", "Gn", "V1", "G2", "F2")
+    for k in MANY_K[tier]:
+        for step, ln_ in ((3, 2), (2, 2), (2, 3)):  # disjoint with gaps, touching, overlapping neighbours
+            spans = [(1 + i * step, 1 + i * step + ln_) for i in range(k)]
+            N = spans[-1][1] + 2
+            children = [W.make_child(kinds[i % len(kinds)], i, s, e, "shared" if i in (0, k // 2) else None) for i, (s, e) in enumerate(spans)]
+            for pk, win in (("none", None), ("chrom", None), ("chunk", (1, N - 1))):
+                yield dict(fam="many", off=0, N=N, L=N, parent=pk, win=win, children=children, d2=False, arr=f"many-{k}-{step}-{ln_}", kinds=[kinds[i % len(kinds)] for i in range(k)], many=True)
 
 
 D2_KINDS = {
@@ -568,6 +590,28 @@ def subsets(xs):
             yield list(c)
 
 
+def id_ops_many(st):
+    """reduced identifier menu for collections with many members: every single identifier, the unknown one, all of them,
+    every other one, the first and last, each also with the unknown one in front"""
+    ch = st["children"]
+    cids = [c["id"] for c in ch]
+    gids = [g["id"] for c in ch for g in c["gc"]]
+    idents = sorted({c["id"] for c in ch} | {c["name"] for c in ch if c["name"]})
+
+    def menus(xs, unknown):
+        out = [[x] for x in xs] + [[unknown], list(xs), xs[::2], xs[1::2], [xs[0], xs[-1]], [xs[-1], xs[0]]]
+        out += [[unknown] + m for m in (list(xs), xs[::2], [xs[len(xs) // 2]])]
+        return out
+
+    for m in menus(cids, "?"):
+        yield {"q": "guids", "ids": m}
+    for m in menus(idents, UNKNOWN_IDENT):
+        yield {"q": "identifiers", "ids": m}
+    for m in menus(gids, "?"):
+        for q in ("interval_guids", "tx_guids", "feat_guids"):
+            yield {"q": q, "ids": m}
+
+
 def id_ops(st):
     """all identifier operations for a state: every subset of the identifiers present plus one unknown"""
     ch = st["children"]
@@ -625,6 +669,18 @@ def pos_menu(st, spec, around=None):
     base collection: lo,hi = the world [off, off+N] (plus, in the 300 kb world, 0, L and the chunk ends);
     successor (around = its bounds): the part of its [bs-1, be+1] that lies in the world, plus bs-1, bs, be, be+1"""
     wlo, whi = spec["off"] - 1, spec["off"] + spec["N"] + 1
+    if spec.get("many"):
+        # ladder: the ends of the first, a middle and the last members, one base to either side of the first / last, the world ends
+        sp = sorted(M.child_span(c) for c in st["children"])
+        lad = {None, 0, spec["N"], sp[0][0], sp[0][1], sp[0][1] + 1, sp[len(sp) // 2][0], sp[len(sp) // 2][1], sp[-1][0] - 1, sp[-1][0], sp[-1][1], sp[len(sp) // 3][0] + 1}
+        coords = [None] + sorted(c for c in lad if c is not None)
+        for s_ in coords:
+            for e_ in coords:
+                for co in (False, True):
+                    for cw in (True, False):
+                        for ex in (False, True):
+                            yield (s_, e_, co, cw, ex)
+        return
     if around is None:
         extra = []
         if spec["L"] > whi:
@@ -683,7 +739,7 @@ def explore(res, spec):
             key = M.canon_state(rstate)
             if key not in successors:
                 successors[key] = (args, r, rstate)
-    for op in id_ops(st):
+    for op in (id_ops_many(st) if spec.get("many") else id_ops(st)):
         check_idq(res, case, src, st, op, gfn)
     # depth 2 -------------------------------------------------------------------------------------------------------
     for key in successors:
